@@ -10,20 +10,20 @@ tech={
  'C03':'custom SSA analysis: value-origin templates of the switch constructor, flag-phi bookkeeping check, push/pop pairing by path search',
  'C04':'custom SSA analysis: register-before-reference dominance, DNF label guard, fresh-id/enqueue typestate, check-before-append',
  'C05':'custom SSA analysis: flag confinement (single read, single dependent phi), must-reference-after-register path search, branch-protocol DNF',
- 'C06':'custom SSA analysis: must-consume flow graph of *impData values, value-origin templates of the patch-and-define protocol',
+ 'C06':'custom SSA analysis: must-consume flow graph of *impData values, value-origin templates of the patch-and-define protocol, who-may-touch (owners) check of the parser tables over all resolved uses, parameter-threading check of the script name along the call graph',
  'C07':'custom SSA analysis: must-pass-through / exactly-once path search over builder writes, guard-predicate agreement, phi-leaf parameter binding (structural clauses only; pixel arithmetic not decided)',
- 'C08':'custom SSA analysis: emission skeleton by dominance/reachability within loop nests, value-origin name binding',
+ 'C08':'custom SSA analysis: emission skeleton by dominance/reachability within loop nests, value-origin name binding, closed-world scan for permuting / cutting / in-place stores on order-bearing lists',
  'C09':'custom SSA analysis: map-literal table extraction, value-origin agreement of (text, string type) pairs, parallel-map key agreement',
- 'C10':'custom SSA analysis: per-arm action classification of the argument loop, advance-on-every-path search, constant-format write sites',
+ 'C10':'custom SSA analysis: per-arm action classification of the argument loop, advance-on-every-path search, constant-format write sites, written-by-its-maker ownership of tree stores (all packages), builder read-out / written-once path checks',
  'C11':'custom SSA analysis: value-origin terms of the AutoVar result var / preamble attachment, once-before dominance in the leaf renderer',
  'C12':'custom SSA analysis: selection-protocol check on phi edges guarded by comma-ok presence bits, transitive effect confinement',
  'C13':'custom SSA dataflow: token literals reaching string accumulators must pass through the substitution helper; never-substituted sinks',
  'C14':'custom SSA analysis: interval guards, loop-shape extraction, exactly-once terminator by path search, same-value test/write agreement',
  'C15':'custom SSA/typed-AST lint: constant/guard extraction, DNF of reaching conditions, value-origin terms',
  'C16':'custom SSA analysis: guard confinement of marker emission, marker-owner agreement with the next write, definite-assignment path search for tokens',
- 'C17':'custom SSA lint: map-range order-insensitivity, global-write / effect analysis, banned-call and concurrency scan',
- 'C18':'custom SSA analysis: panic/assertion scan, token-progress path search per loop, EOF abstract evaluation, bounds/nil discharge rules with reviewed exemptions, error-propagation discipline',
- 'C19':'custom SSA analysis: width-fact typestate over lexer token construction sites, table extraction (keywords, whitespace/comment sets)',
+ 'C17':'custom SSA lint: map-range order-insensitivity (keys, early exits), global-write / effect analysis, allow-list of library packages, address-free format operands, value-flow of Emit\'s result through package main',
+ 'C18':'custom SSA analysis: panic/assertion scan, token-progress path search per loop, EOF abstract evaluation, bounds (lower and upper) / nil discharge rules with reviewed, site-counted exemptions, cross-component nil-dereference check (emitter derefs vs parser construction sites), error-propagation discipline, rejection-message catalogue comparison',
+ 'C19':'custom SSA analysis: width-fact typestate over lexer token construction sites, table extraction (keywords, whitespace/comment sets), DNF equivalence of the NextToken dispatch arms, taint of non-input lexer fields into conditions, provenance of literal text (input slices at lexer positions)',
  'C20':'custom SSA analysis: push/pop pairing by path search, check-before-insert on identical key terms, must-guard literals',
 }
 checks=[]
